@@ -128,11 +128,16 @@ func H_C08_heartbeat() {
 	if zz.Param(2) == 1 {
 		f.s.cancel()
 	}
+	if zz.Param(2) == 2 {
+		// the way a connection's end reaches the session: the handler is stopped (C13), the
+		// session's context is derived from the handler's
+		f.h.Stop()
+	}
 	zz.FireTimer(tb + 1)
 	zz.Yield()
 	out := f.h.VerifOut()
 	zz.Reach("fired")
-	if zz.Param(2) == 1 {
+	if zz.Param(2) >= 1 {
 		zz.Assert(len(out) == 0, "C08: heartbeat sent by a cancelled session")
 		zz.Assert(zz.Done(tb + 1), "C08: heartbeat goroutine does not exit when the session is cancelled")
 		return
@@ -178,8 +183,13 @@ func H_C09_probe() {
 		}
 	}
 	zz.Class("scenario=" + strconv.Itoa(zz.Param(1)) + "/logoutPending=" + strconv.Itoa(zz.Param(4)))
-	if zz.Param(1) == 2 {
-		f.s.cancel()
+	if zz.Param(1) == 3 {
+		f.h.Stop() // the handler of the connection is stopped: the session's context follows
+	}
+	if zz.Param(1) == 2 || zz.Param(1) == 3 {
+		if zz.Param(1) == 2 {
+			f.s.cancel()
+		}
 		zz.FireTimer(tb)
 		zz.Yield()
 		zz.Reach("fired")
